@@ -79,12 +79,12 @@ type model struct {
 	Earned   []int64
 	Spent    int64 // requester
 	Reqs     int
-	Due      []bool // oracle requests (with TSS encoder) that resolve at the next block end; true = fee limit leaves room for the signing fee
+	Due      []int64 // oracle requests (with TSS encoder) that resolve at the next block end: what is left of their fee limit after the data-source fees
 }
 
 func (m *model) Clone() engine.Model {
 	c := &model{NextDE: append([]uint64(nil), m.NextDE...), Used: map[string]bool{}, Active: append([]bool(nil), m.Active...),
-		Attempts: append([]attemptRec(nil), m.Attempts...), Escrow: m.Escrow, Earned: append([]int64(nil), m.Earned...), Spent: m.Spent, Reqs: m.Reqs, Due: append([]bool(nil), m.Due...)}
+		Attempts: append([]attemptRec(nil), m.Attempts...), Escrow: m.Escrow, Earned: append([]int64(nil), m.Earned...), Spent: m.Spent, Reqs: m.Reqs, Due: append([]int64(nil), m.Due...)}
 	for _, q := range m.Queues {
 		c.Queues = append(c.Queues, append([]uint64(nil), q...))
 	}
@@ -189,7 +189,7 @@ func (s *spec) Enabled(w *engine.World, ctx sdk.Context, mm engine.Model, depth 
 		}
 	}
 	if m.Reqs < s.cfg.MaxReq {
-		for _, k := range []string{"req", "reqlow", "reqgov", "reqfail", "reqpoor", "oreq", "oreqlow"} {
+		for _, k := range []string{"req", "reqlow", "reqnolimit", "reqotherdenom", "reqgov", "reqfail", "reqpoor", "oreq", "oreqlow"} {
 			if has(ev, k) {
 				out = append(out, k)
 			}
@@ -197,6 +197,9 @@ func (s *spec) Enabled(w *engine.World, ctx sdk.Context, mm engine.Model, depth 
 	}
 	if has(ev, "feechg") {
 		out = append(out, "feechg")
+	}
+	if has(ev, "maxde") && s.cfg.MaxDESize > 1 {
+		out = append(out, "maxde")
 	}
 	if has(ev, "sig") {
 		for _, sg := range m.Sigs {
@@ -306,6 +309,16 @@ func (s *spec) Step(w *engine.World, ctx sdk.Context, mm engine.Model, ev string
 	reqAddr := requester().Address
 	fee := bk.GetParams(ctx).FeePerSigner.AmountOf("uband").Int64() // parameter value in force (configuration, given)
 	switch parts[0] {
+	case "maxde":
+		// governance lowers / restores MaxDESize while queues are filled
+		tp := tk.GetParams(ctx)
+		if tp.MaxDESize == s.cfg.MaxDESize {
+			tp.MaxDESize = 1
+		} else {
+			tp.MaxDESize = s.cfg.MaxDESize
+		}
+		res := w.Tx(ctx, 0, tsstypes.NewMsgUpdateParams(tssh.Authority.String(), tp))
+		st.Outcome = "maxde:" + res.ErrName()
 	case "feechg":
 		// governance changes fee_per_signer while signings are in flight
 		bp := bk.GetParams(ctx)
@@ -322,10 +335,11 @@ func (s *spec) Step(w *engine.World, ctx sdk.Context, mm engine.Model, ev string
 		addr := g.Accounts[i].Address.String()
 		res := w.Tx(ctx, 0, tssh.SubmitDEsMsg(addr, m.NextDE[i], cnt))
 		st.Outcome = "de:" + res.ErrName()
-		over := uint64(len(m.Queues[i]))+cnt > s.cfg.MaxDESize
+		maxDE := tk.GetParams(ctx).MaxDESize // parameter in force (configuration, given)
+		over := uint64(len(m.Queues[i]))+cnt > maxDE
 		if res.OK() {
 			if over {
-				st.Violate("C05/de-submission-above-max-accepted", "member %d queue %d + %d > max %d accepted", i, len(m.Queues[i]), cnt, s.cfg.MaxDESize)
+				st.Violate("C05/de-submission-above-max-accepted", "member %d queue %d + %d > max %d accepted", i, len(m.Queues[i]), cnt, maxDE)
 				return ctx, st
 			}
 			for k := uint64(0); k < cnt; k++ {
@@ -372,9 +386,9 @@ func (s *spec) Step(w *engine.World, ctx sdk.Context, mm engine.Model, ev string
 			if r2 := w.Tx(ctx, 0, oracletypes.NewMsgReportData(oracletypes.RequestID(rid), raws, val)); !r2.OK() {
 				panic("report: " + r2.Err.Error())
 			}
-			m.Due = append(m.Due, parts[0] == "oreq")
+			m.Due = append(m.Due, limit-oracleCost)
 		}
-	case "req", "reqlow", "reqgov", "reqfail", "reqpoor":
+	case "req", "reqlow", "reqnolimit", "reqotherdenom", "reqgov", "reqfail", "reqpoor":
 		m.Reqs++
 		content := tsstypes.NewTextSignatureOrder([]byte(fmt.Sprintf("msg-%d", m.Reqs)))
 		total := fee * int64(s.cfg.T)
@@ -388,7 +402,14 @@ func (s *spec) Step(w *engine.World, ctx sdk.Context, mm engine.Model, ev string
 		case "reqpoor":
 			sender = bandtesting.Bob.Address // holds exactly total-1 uband (see Build)
 		}
-		msg, err := bandtsstypes.NewMsgRequestSignature(content, sdk.NewCoins(sdk.NewInt64Coin("uband", limit)), sender.String())
+		limitCoins := sdk.NewCoins(sdk.NewInt64Coin("uband", limit))
+		switch parts[0] {
+		case "reqnolimit":
+			limitCoins = sdk.NewCoins() // no limit given at all: nothing may be charged
+		case "reqotherdenom":
+			limitCoins = sdk.NewCoins(sdk.NewInt64Coin("tok", 1_000_000)) // a limit that does not mention the fee denom
+		}
+		msg, err := bandtsstypes.NewMsgRequestSignature(content, limitCoins, sender.String())
 		if err != nil {
 			panic(err)
 		}
@@ -404,6 +425,10 @@ func (s *spec) Step(w *engine.World, ctx sdk.Context, mm engine.Model, ev string
 		if res.OK() {
 			if parts[0] == "reqpoor" && fee > 0 {
 				st.Violate("C13/fee-charged-beyond-balance", "payer with balance below the fee was served")
+				return ctx, st
+			}
+			if (parts[0] == "reqnolimit" || parts[0] == "reqotherdenom") && fee > 0 {
+				st.Violate("C13/fee-charged-without-limit-in-that-denom", "signing fee %duband charged although the caller's fee limit is %s", total, limitCoins)
 				return ctx, st
 			}
 			if parts[0] == "reqlow" && fee > 0 {
@@ -542,7 +567,8 @@ func (s *spec) Step(w *engine.World, ctx sdk.Context, mm engine.Model, ev string
 		postEnd := next.WithBlockHeight(h)
 		// signings created by the oracle end-blocker (it runs before the tss end-blocker): eligibility and
 		// nonce queues as they were before this block's time-outs
-		for _, room := range m.Due {
+		for _, remaining := range m.Due {
+			room := remaining >= feeAtStart*int64(s.cfg.T) // the signing fee in force at resolution time must fit into what is left of the limit
 			eligPre := map[int]bool{}
 			for i := 0; i < s.cfg.N; i++ {
 				if preActive[i] && len(m.Queues[i]) > 0 {
@@ -707,9 +733,8 @@ func (s *spec) Step(w *engine.World, ctx sdk.Context, mm engine.Model, ev string
 		if bad || fmt.Sprint(chain) != fmt.Sprint(m.Queues[i]) {
 			st.Violate("C05/nonce-queue-differs-from-fifo-model", "member %d: chain queue %v (head %d tail %d), model %v after %s", i, chain, q.Head, q.Tail, m.Queues[i], ev)
 		}
-		if uint64(len(chain)) > s.cfg.MaxDESize {
-			st.Violate("C05/queue-above-max", "member %d holds %d nonce pairs, max %d", i, len(chain), s.cfg.MaxDESize)
-		}
+		// (queue length <= max is asserted at submission time against the parameter then in force; a later
+		// lowering of the parameter may legitimately leave a longer queue)
 		// penalties: exactly the model's active flags
 		mem, err := bk.GetMember(ctx, addr, g.ID)
 		if err != nil {
@@ -762,7 +787,13 @@ func Run(r *engine.Run, owner string, cfgs []Cfg, quickCap, thoroughCap time.Dur
 		sr.Violations = keep
 		r.AddSearch(fmt.Sprintf("cfg%d[n=%d,t=%d,period=%d,attempts=%d,maxDE=%d,initDE=%d,maxReq=%d,ev=%s]", i, c.N, c.T, c.SigningPeriod, c.MaxSigningAttempt, c.MaxDESize, c.InitDE, c.MaxReq, strings.Join(c.Events, "+")), c, sr)
 	}
-	r.ConfirmViolations(func(cfg any) engine.Spec { return &spec{cfg: cfg.(Cfg)} })
+	r.ConfirmViolations(func(cfg any) engine.Spec {
+		c, ok := cfg.(Cfg)
+		if !ok {
+			return nil
+		}
+		return &spec{cfg: c}
+	})
 }
 
 // Replay re-executes one stored path.
